@@ -239,8 +239,12 @@ Definition as_result (p : lobj * option exn) : result lobj :=
 Definition labels_ctor (kws : list (str * lval)) : result lobj := as_result (set_fields false labels_init kws).
 (* JSONField.update: a new object with every attribute of lab copied, then _set_fields of the new keyword arguments *)
 Definition labels_update (lab : lobj) (kws : list (str * lval)) : result lobj := as_result (set_fields false lab kws).
-(* from_json after json.loads: a fresh object, forgiving *)
-Definition labels_from_dict (d : list (str * lval)) : result lobj := as_result (set_fields true labels_init d).
+(* from_json after json.loads: a fresh object, forgiving; when the source pre-filters (from_json_prefilters), keys that
+   are not fields of the fresh object are dropped before _set_fields sees their values *)
+Definition from_json_keys (d : list (str * lval)) : list (str * lval) :=
+  if from_json_prefilters then filter (fun kv => mem_str (fst kv) label_fields) d else d.
+Definition labels_from_dict (d : list (str * lval)) : result lobj :=
+  as_result (set_fields true labels_init (from_json_keys d)).
 
 (* to_dict / to_json: the fields that are not None (a str or list is never == 0) *)
 Definition labels_encode (st : lobj) : list (str * lval) :=
@@ -314,13 +318,14 @@ Definition set_boot_script (v : sval) : result (option str) :=
   end.
 
 (* ModelElement.name setter and rename (fim/user/model_element.py:69-79, 140-144) on an element whose
-   sliver class is cls and whose name in the graph is old: the handle caches the new value BEFORE the
-   sliver validates it, so a rejected assignment leaves the rejected string in the handle while the graph
-   keeps the old name.  Result: ((handle name, graph name), exception) *)
+   sliver class is cls and whose name in the graph is old.  When the setter caches the new value BEFORE the
+   sliver validates it (name_setter_validates_first = false, regenerated from the source), a rejected
+   assignment leaves the rejected string in the handle while the graph keeps the old name.
+   Result: ((handle name, graph name), exception) *)
 Definition elem_set_name (cls : str) (old : str) (s : str) : (str * str) * option exn :=
   match set_name cls (SStr s) with
   | Ok _ => ((s, s), None)
-  | Err e => ((s, old), Some e)
+  | Err e => ((if name_setter_validates_first then old else s, old), Some e)
   end.
 
 (* ------------------------------------------------------------------------------------------ *)
